@@ -14,10 +14,10 @@ HARMLESS = "--harmless" in args
 if HARMLESS:
     args.remove("--harmless")
 SEEDDIR = "seeded_harmless" if HARMLESS else "seeded"
-RES = os.path.join(ROOT, SEEDDIR, "RESULTS.json")
+RES = os.environ.get("RS_RESULTS") or os.path.join(ROOT, SEEDDIR, "RESULTS.json")
 res = json.load(open(RES)) if os.path.exists(RES) else {}
 ids = [s for s in sorted(os.listdir(os.path.join(ROOT, SEEDDIR))) if os.path.isfile(os.path.join(ROOT, SEEDDIR, s, "patch.diff")) and (not args or s in args)]
-wts = [f"/tmp/rs_wt{i}" for i in range(N)]
+wts = [os.environ.get("RS_PREFIX", "/tmp/rs_wt") + str(i) for i in range(N)]
 for wt in wts:
     subprocess.run(["git", "-C", "/repo", "worktree", "remove", "--force", wt], capture_output=True)
     subprocess.run(["git", "-C", "/repo", "worktree", "add", "-q", "--detach", wt, "HEAD"], check=True)
